@@ -106,6 +106,12 @@ def run_property(prop, tier, modname=None):
         write_evidence(run, mod, extra_violations=1, note="build failure in tags %s" % [t for t, _ in build_failures])
         print("VIOLATION property=%s replay=%s" % (prop, p))
         return 1
+    from .model import check_status_order
+    for t, d in dbs.items():
+        run.rule = prop + ".S"
+        run.tag = t
+        ok, why = check_status_order(d)
+        run.check(ok, "status-order", why, "the status lattice assumed by every status-comparison rule does not hold: " + why)
     for r in rules:
         tags = r["quick"] if tier == "quick" else r["thorough"]
         run.rule = r["id"]
